@@ -43,3 +43,13 @@ Example C12_nonvacuous :
   complete p [pr] (s2l "r") = Some [s2l "r_al"] /\ complete p [pr] (s2l "A") = Some [s2l "ax"] /\ complete p [pr] (s2l "b") = Some [].
 Proof. vm_compute. repeat split. Qed.
 Print Assumptions C12_nonvacuous.
+
+(* ONLY lists on two USE levels with nothing in common: the inner modules stay out of the dictionary (hence nothing of theirs is
+   offered or resolved) -- the exit `if len(merged_use_list) == 0: continue` of get_use_tree, for any number of USE statements *)
+From FV Require Import C12.Disjoint.
+Theorem only_lists_with_nothing_in_common_import_nothing : forall p f sc d only path,
+  only <> [] ->
+  (forall u, In u (sp_uses sc) -> u_only u <> [] /\ forall v, In v only -> smem v (u_only u) = false) ->
+  get_use_tree p (S f) sc d only [] path = Some d.
+Proof. exact disjoint_only_imports_nothing. Qed.
+Print Assumptions only_lists_with_nothing_in_common_import_nothing.
